@@ -32,10 +32,29 @@ def FPost.render (p : FPost) : String :=
 def parseEnum? (s : String) : Option (Balance → Balance) :=
   if s = "id" then some id else if s = "rev" then some List.reverse else none
 
+/-- `amount.lot = {"price": amount|null, "total": bool, "fixated": bool, "date": day|null, "tag": str}` -/
+def lotSpec? (j : Lean.Json) : Option LotSpec := do
+  let price ← J.optField j "price" J.amount?
+  let tag := (J.str? j "tag").getD ""
+  pure { price := price, total := (J.bool? j "total").getD false, fixated := (J.bool? j "fixated").getD false,
+         date := (J.int? j "date").map dateText, tag := if tag.isEmpty then none else some tag }
+
+def lposting? (j : Lean.Json) : Option LPosting := do
+  let p ← J.posting? j
+  let lot ← match J.obj? j "amount" with
+    | some a => J.optField a "lot" lotSpec?
+    | none => some none
+  pure { post := p, lot := lot }
+
+def lxact? (j : Lean.Json) : Option LXact := do
+  let d ← J.int? j "date"
+  let ps ← optAll lposting? (← J.arr? j "posts")
+  pure { date := d, posts := ps }
+
 def opXactFin (args : List String) : String :=
   match args with
   | [js, bucket, env, en] =>
-    match (J.parse? js).bind J.xact?, parseEnum? en with
+    match (J.parse? js).bind lxact?, parseEnum? en with
     | some x, some enum =>
       let env0 := parseEnv env
       match finalize (observe env0 x) (if bucket.isEmpty then none else some bucket) enum x with
@@ -47,7 +66,7 @@ def opXactFin (args : List String) : String :=
 def item? (j : Lean.Json) : Option JItem :=
   match J.str? j "bucket" with
   | some a => some (.bucket a)
-  | none => (J.obj? j "xact").bind (fun xj => (J.xact? xj).map JItem.xact)
+  | none => (J.obj? j "xact").bind (fun xj => (lxact? xj).map JItem.xact)
 
 def dedup (l : List String) : List String :=
   l.foldl (fun acc x => if acc.contains x then acc else acc ++ [x]) []
